@@ -5,7 +5,7 @@
    implementation's reported solutions by harness/c10.py, and the provenance part (every reported candidate descends from a passed
    major candidate of a recorded structure) is proved as part of C10_select_carry. *)
 From Coq Require Import Permutation Sorted.
-From Aldy Require Import Base Consts Select SelectProofs Consts_here Consts_wf.
+From Aldy Require Import Base Consts Select SelectProofs Consts_here Consts_wf Exprs_sel Tied_sel.
 Import List.
 Open Scope Z_scope.
 
@@ -125,3 +125,38 @@ Example C10_example_errors :
   genotype_select here 0 [ {| cn_id := 0; cn_name := [49]; cn_score := 1;
                               cn_majors := [ {| ma_id := 0; ma_name := [97]; ma_raw := 0; ma_rank := 0; ma_minors := [] |} ] |} ] = Err NoMinors.
 Proof. vm_compute. repeat split. Qed.
+
+(* ================================================================= tie to the current source tree
+   The decision expressions below are regenerated from /repo's Python AST on every run (harness/gen_exprs.py -> gen/Exprs_sel.v);
+   each theorem says that the model's definition IS that expression, for all arguments.  A change of the expression in the code
+   breaks the obligation even when no sampled input distinguishes old and new behaviour. *)
+Theorem C10_tie_major_keep : forall (A : Type) (score : A -> Q) (c : consts) gap mn a,
+  within score (c_solution_precision c) gap mn a = sel_major_keep (score a) mn gap (c_solver_precision c) (c_solution_precision c).
+Proof. exact sel_major_keep_tied. Qed.
+Goal True. idtac "ASSUME C10_tie_major_keep". Abort.
+Print Assumptions C10_tie_major_keep.
+
+Theorem C10_tie_minor_keep : forall (A : Type) (score : A -> Q) (c : consts) gap mn a,
+  within score (c_solution_precision c) gap mn a = sel_minor_keep (score a) mn gap (c_solver_precision c) (c_solution_precision c).
+Proof. exact sel_minor_keep_tied. Qed.
+Goal True. idtac "ASSUME C10_tie_minor_keep". Abort.
+Print Assumptions C10_tie_minor_keep.
+
+Theorem C10_tie_major_carry : forall min_cn cns j, In j (major_candidates min_cn cns) ->
+  jc_score j = (ma_raw (jc_in j) + sel_major_carry (cn_score (jc_cn j)) min_cn)%Q.
+Proof. exact sel_major_carry_tied. Qed.
+Goal True. idtac "ASSUME C10_tie_major_carry". Abort.
+Print Assumptions C10_tie_major_carry.
+
+Theorem C10_tie_combined : forall c min_cn min_major j m,
+  combined c min_cn min_major j m =
+  sel_rescale (mi_raw m + sel_minor_carry (jc_score j) min_major)%Q (cn_score (jc_cn j)) min_cn (c_slack c).
+Proof. exact sel_combined_tied. Qed.
+Goal True. idtac "ASSUME C10_tie_combined". Abort.
+Print Assumptions C10_tie_combined.
+
+Theorem C10_tie_sort_key : forall (A : Type) (name : A -> str) (score : A -> Q) (a : A) (k : nat), (k < 3)%nat ->
+  key_of name score (scale_at here k) a = (qtrunc (sel_sort_key (score a)), name a).
+Proof. exact sel_sort_key_tied. Qed.
+Goal True. idtac "ASSUME C10_tie_sort_key". Abort.
+Print Assumptions C10_tie_sort_key.
